@@ -503,8 +503,38 @@ def run_shared(a, b):
     b['greedy'] = out(b, 'greedy', lambda: (holder.get('mb') or mk(box['par_b'])).greedy_search())
 
 
+def record_queries(inst):
+  """The constraint-set queries of a fresh object, as geo numbers."""
+  q = {'recorded': False, 'overBudget': [], 'tooLarge': [], 'mustInclude': [], 'admitted': [], 'admittedOk': False,
+       'sizes': [], 'sizesOk': False}
+  try:
+    from matched_markets.methodology import tbrmatchedmarkets
+    data, par, ids = build_objects(inst, {})
+    mmo = tbrmatchedmarkets.TBRMatchedMarkets(data, par)
+  except Exception:  # pylint: disable=broad-except
+    return q
+  num = {str(i): g + 1 for g, i in enumerate(ids)}
+  try:
+    q['overBudget'] = sorted(num[str(x)] for x in mmo.geos_over_budget)
+    q['tooLarge'] = sorted(num[str(x)] for x in mmo.geos_too_large)
+    q['mustInclude'] = sorted(num[str(x)] for x in mmo.geos_must_include)
+    q['recorded'] = True
+  except Exception:  # pylint: disable=broad-except
+    return q
+  try:
+    q['admitted'] = sorted(num[str(x)] for x in mmo.geos_within_constraints)
+    q['admittedOk'] = True
+    q['sizes'] = [int(v) for v in mmo.treatment_group_size_range()]
+    q['sizesOk'] = True
+  except Exception:  # pylint: disable=broad-except
+    pass
+  return q
+
+
 def run_instance(inst):
   t0 = time.time()
+  if inst.get('partner') is None and not inst.get('is_partner'):
+    inst['queries'] = record_queries(inst)
   if inst.get('partner') is not None:
     b = inst['partner']
     try:
@@ -545,7 +575,9 @@ def to_tla(inst):
           'hasBudget': inst['budget'] is not None, 'k': inst['par']['n_designs'], 'nmax': inst['nmax'],
           'missingRequired': (not inst['default_elig']) and inst.get('extra_elig_row') in ('ct', 'c', 't'),
           'overBudget': tab['over_budget'], 'impactOrder': tab['impact_order'], 'rank': rank, 'budgetOK': bok,
-          'opt': opt, 'beatsZero': beats, 'exh': res(inst['exh']), 'greedy': res(inst['greedy'])}
+          'opt': opt, 'beatsZero': beats, 'exh': res(inst['exh']), 'greedy': res(inst['greedy']),
+          'queries': inst.get('queries') or {'recorded': False, 'overBudget': [], 'tooLarge': [], 'mustInclude': [],
+                                            'admitted': [], 'admittedOk': False, 'sizes': [], 'sizesOk': False}}
 
 
 def _tlc_chunk(args):
@@ -749,7 +781,11 @@ def run_search_clauses(res, owner, count=None):
     stats['designs_judged'] += len(inst['exh']['designs']) + len(inst['greedy']['designs'])
     mine = sorted(c for c in v['fails'] if c.startswith(owner + ':'))
     for c in v['fails']:
-      if not c.startswith(owner + ':'):
+      if c.startswith('QUERY:'):
+        qd = res.extra.setdefault('query_drift', {})
+        qd[c] = qd.get(c, 0) + 1
+        res.note('NOTE drift instance %d: a constraint-set query of the real object differs from MMDefs (%s)' % (inst['id'], c))
+      elif not c.startswith(owner + ':'):
         other[c] = other.get(c, 0) + 1
     for c in mine:
       root = primary_of.get(inst['id'], inst)
@@ -757,6 +793,9 @@ def run_search_clauses(res, owner, count=None):
                                        'observed': summarize(inst), 'facts': v['facts']},
                   'MMTrace rejects the recorded results: clause %s; exhaustive=%s greedy=%s' % (
                       c, summarize(inst)['exhaustive'], summarize(inst)['greedy']))
+  res.extra.setdefault('query_drift', {})
+  res.extra['queries_compared'] = res.extra.get('queries_compared', 0) + sum(
+      1 for i in insts if (i.get('queries') or {}).get('recorded'))
   for k, val in stats.items():
     res.extra['search_' + k] = res.extra.get('search_' + k, 0) + val
   if other:
